@@ -3,7 +3,7 @@
 //! * `parse_expression_dump` runs the real expression parser on a text and renders the AST as an s-expression;
 //! * `binding_powers` *evaluates* the parser's own precedence decisions for every operator token, so that the
 //!   Lean model of the Pratt parser runs on the table the code actually uses (no text translation).
-use crate::sql::parser::{Parser, Token, ast::*};
+use crate::sql::parser::{Parser, ast::*};
 
 fn bin_name(op: BinaryOperator) -> &'static str {
     match op {
